@@ -123,7 +123,13 @@ def r_fanout(ctx, repo):
         seen += 1
         where = f.loc(call)
         text = norm(call.func)
-        targets = _receiver_classes(repo, f, recv)
+        try:
+            targets = _receiver_classes(repo, f, recv)
+        except DynamicTargets as e:
+            rule.fail('%s|dynamic|%s' % (f.qualname, text), f.module.rel, call.lineno, f.qualname, norm(call)[:100],
+                      'the classes this registration reaches are computed at run time (%s): the fan-out is no longer the '
+                      'documented fixed set and may include the safe / base classes' % e)
+            continue
         if targets is None:
             raise AnalysisError('%s: cannot determine the class targeted by %s' % (where, text))
         bad = [t for t in targets if isinstance(t, ClassInfo) and t in prot]
@@ -173,50 +179,173 @@ def r_fanout(ctx, repo):
                 rule.fail('%s|unguarded|%s' % (mf.qualname, norm(c.func)), mf.module.rel, c.lineno, mf.qualname,
                           norm(c)[:100], 'the metaclass registers even for subclasses that do not define yaml_tag '
                                          '(a None tag would become a catch-all entry of the loader tables)')
-    rule.require_min(20, 'registration call sites')
+    rule.require_min(10, 'registration call sites')
     return rule
 
 
-def _receiver_classes(repo, f, recv):
-    """Classes a registration receiver may denote; None if undetermined."""
-    m = f.module
-    if isinstance(recv, ast.Name) and recv.id in f.params + [a.arg for a in f.node.args.kwonlyargs]:
-        d = f.defaults().get(recv.id)
-        if d is None or (isinstance(d, ast.Constant) and d.value is None):
-            return ['<caller-given %s>' % recv.id]
-        r = repo.resolve_expr(m, d)
+class DynamicTargets(Exception):
+    """the set of classes is computed at run time (getattr / comprehension over names): not a fixed documented set."""
+
+
+def _yaml_object_attr(repo, attr):
+    yo = repo.modules['__init__'].classes.get('YAMLObject')
+    if yo is None:
+        return None
+    vals = yo.attrs.get(attr)
+    if not vals:
+        return None
+    out = []
+    for e in _elements(vals[-1]):
+        r = repo.resolve_expr(yo.module, e)
         if r is None or r.kind != 'class':
             return None
-        return [r.obj, '<caller-given %s>' % recv.id]
-    r = repo.resolve_expr(m, recv)
+        out.append(r.obj)
+    return out + ['<subclass-given %s>' % attr]
+
+
+def _elements(v):
+    return list(v.elts) if isinstance(v, (ast.List, ast.Tuple, ast.Set)) else [v]
+
+
+def _value_classes(repo, f, expr, at=None, depth=0):
+    """classes an expression may denote inside function f (None: undetermined; raises DynamicTargets when the value is
+    computed from names at run time).  Follows loop variables to the elements of what they iterate over, locals to their
+    definitions (list displays, append/extend), and calls of package functions to what they return / yield."""
+    if depth > 8:
+        return None
+    m = f.module
+    if isinstance(expr, ast.IfExp):
+        a = _value_classes(repo, f, expr.body, at, depth + 1)
+        b = _value_classes(repo, f, expr.orelse, at, depth + 1)
+        return None if a is None or b is None else a + [x for x in b if x not in a]
+    if isinstance(expr, (ast.List, ast.Tuple, ast.Set)):
+        out = []
+        for e in expr.elts:
+            if isinstance(e, ast.Starred):
+                r = _iter_classes(repo, f, e.value, at, depth + 1)
+            else:
+                r = _value_classes(repo, f, e, at, depth + 1)
+            if r is None:
+                return None
+            out += [x for x in r if x not in out]
+        return out
+    if isinstance(expr, (ast.ListComp, ast.GeneratorExp, ast.SetComp)):
+        raise DynamicTargets(norm(expr)[:80])
+    if isinstance(expr, ast.Call) and norm(expr.func) in ('getattr', 'globals', 'vars', 'eval'):
+        raise DynamicTargets(norm(expr)[:80])
+    if isinstance(expr, ast.Name):
+        # innermost enclosing for-loop binding this name (takes precedence over a parameter of the same name)
+        if at is not None:
+            p = getattr(at, '_parent', None)
+            while p is not None and p is not f.node:
+                if isinstance(p, ast.For) and any(isinstance(x, ast.Name) and x.id == expr.id for x in ast.walk(p.target)) \
+                        and isinstance(p.target, ast.Name):
+                    return _iter_classes(repo, f, p.iter, p, depth + 1)
+                p = getattr(p, '_parent', None)
+        if expr.id in f.params + [a.arg for a in f.node.args.kwonlyargs]:
+            stored = any(isinstance(n, ast.Name) and n.id == expr.id and isinstance(n.ctx, ast.Store) for n in walk_function(f.node))
+            if not stored or at is None:
+                d = f.defaults().get(expr.id)
+                if d is None or (isinstance(d, ast.Constant) and d.value is None):
+                    return ['<caller-given %s>' % expr.id]
+                r = repo.resolve_expr(m, d)
+                if r is None or r.kind != 'class':
+                    return None
+                return [r.obj, '<caller-given %s>' % expr.id]
+        r = repo.resolve_expr(m, expr)
+        if r is not None and r.kind == 'class':
+            return [r.obj]
+        # a local: union of what is assigned to it
+        out, found = [], False
+        for n in walk_function(f.node):
+            if isinstance(n, ast.Assign) and any(isinstance(t, ast.Name) and t.id == expr.id for t in n.targets):
+                found = True
+                v = _value_classes(repo, f, n.value, n, depth + 1)
+                if v is None:
+                    return None
+                out += [x for x in v if x not in out]
+        if expr.id in f.params and found:
+            d = f.defaults().get(expr.id)
+            if d is None or (isinstance(d, ast.Constant) and d.value is None):
+                out.append('<caller-given %s>' % expr.id)
+        return out if found else None
+    if isinstance(expr, ast.Attribute) and isinstance(expr.value, ast.Name) and expr.attr in ('yaml_loader', 'yaml_dumper'):
+        return _yaml_object_attr(repo, expr.attr)
+    r = repo.resolve_expr(m, expr)
     if r is not None and r.kind == 'class':
         return [r.obj]
-    # cls.yaml_loader / cls.yaml_dumper / loop variable over cls.yaml_loader
-    attr = None
-    if isinstance(recv, ast.Attribute) and isinstance(recv.value, ast.Name):
-        attr = recv.attr
-    elif isinstance(recv, ast.Name):
-        for n in walk_function(f.node):
-            if isinstance(n, ast.For) and isinstance(n.target, ast.Name) and n.target.id == recv.id \
-                    and isinstance(n.iter, ast.Attribute):
-                attr = n.iter.attr
-    if attr in ('yaml_loader', 'yaml_dumper'):
-        yo = repo.modules['__init__'].classes.get('YAMLObject')
-        if yo is None:
-            return None
-        vals = yo.attrs.get(attr)
-        if not vals:
-            return None
-        v = vals[-1]
-        elts = v.elts if isinstance(v, (ast.List, ast.Tuple)) else [v]
-        out = []
-        for e in elts:
-            r = repo.resolve_expr(yo.module, e)
-            if r is None or r.kind != 'class':
-                return None
-            out.append(r.obj)
-        return out + ['<subclass-given %s>' % attr]
     return None
+
+
+def _iter_classes(repo, f, it, at, depth=0):
+    """classes of the *elements* of an iterable expression."""
+    if depth > 8:
+        return None
+    if isinstance(it, (ast.List, ast.Tuple, ast.Set)):
+        return _value_classes(repo, f, it, at, depth + 1)
+    if isinstance(it, (ast.ListComp, ast.GeneratorExp, ast.SetComp)):
+        raise DynamicTargets(norm(it)[:80])
+    if isinstance(it, ast.IfExp):
+        a = _iter_classes(repo, f, it.body, at, depth + 1)
+        b = _iter_classes(repo, f, it.orelse, at, depth + 1)
+        return None if a is None or b is None else a + [x for x in b if x not in a]
+    if isinstance(it, ast.Attribute) and isinstance(it.value, ast.Name) and it.attr in ('yaml_loader', 'yaml_dumper'):
+        return _yaml_object_attr(repo, it.attr)
+    if isinstance(it, ast.Call) and norm(it.func) in ('list', 'tuple', 'iter', 'sorted', 'reversed', 'set') and len(it.args) == 1:
+        return _iter_classes(repo, f, it.args[0], at, depth + 1)
+    if isinstance(it, ast.Call):
+        r = repo.resolve_expr(f.module, it.func)
+        if r is not None and r.kind == 'func':
+            g = r.obj
+            out = []
+            some = False
+            for n in walk_function(g.node):
+                vals = None
+                if isinstance(n, ast.Yield) and n.value is not None:
+                    vals = _value_classes(repo, g, n.value, n, depth + 1)
+                elif isinstance(n, ast.YieldFrom):
+                    vals = _iter_classes(repo, g, n.value, n, depth + 1)
+                elif isinstance(n, ast.Return) and n.value is not None:
+                    vals = _iter_classes(repo, g, n.value, n, depth + 1)
+                else:
+                    continue
+                some = True
+                if vals is None:
+                    return None
+                out += [x for x in vals if x not in out]
+            return out if some else None
+        return None
+    if isinstance(it, ast.Name):
+        out, found = [], False
+        for n in walk_function(f.node):
+            if isinstance(n, ast.Assign) and any(isinstance(t, ast.Name) and t.id == it.id for t in n.targets):
+                found = True
+                v = _iter_classes(repo, f, n.value, n, depth + 1)
+                if v is None:
+                    return None
+                out += [x for x in v if x not in out]
+            elif isinstance(n, ast.Call) and isinstance(n.func, ast.Attribute) and isinstance(n.func.value, ast.Name) \
+                    and n.func.value.id == it.id and n.func.attr in ('append', 'extend', 'insert', 'add', 'update') and n.args:
+                found = True
+                arg = n.args[-1]
+                v = _value_classes(repo, f, arg, n, depth + 1) if n.func.attr in ('append', 'insert', 'add') \
+                    else _iter_classes(repo, f, arg, n, depth + 1)
+                if v is None:
+                    return None
+                out += [x for x in v if x not in out]
+            elif isinstance(n, ast.AugAssign) and isinstance(n.target, ast.Name) and n.target.id == it.id:
+                found = True
+                v = _iter_classes(repo, f, n.value, n, depth + 1)
+                if v is None:
+                    return None
+                out += [x for x in v if x not in out]
+        return out if found else None
+    return None
+
+
+def _receiver_classes(repo, f, recv):
+    """Classes a registration receiver may denote; None if undetermined; DynamicTargets if computed at run time."""
+    return _value_classes(repo, f, recv, at=recv)
 
 
 def r_dispatch_self(ctx, repo):
